@@ -827,6 +827,18 @@ def rule_elapsed(ctx, facts, rule):
     ok = okr and bool(some) and bool(somes) and bool(nones) and fn.guarded(somes, some)
     r = fn.reach([0], avoid_edges=some)
     ok = ok and all(n in r for n in nones)
+    if not ok:
+        # combinator form: self.inner.as_ref().map(|inner| inner.raw_span.begin_instant.elapsed())
+        ret = prov.of_local(fn, 0)
+        via_map = [v for o in ret for v in o.via if v[0] == "call" and re.search(r"Option::<T>::map$", v[1])]
+        cl = [c for c in facts.closures_of(fn)]
+        el2 = [(c, b) for c in cl for b in c.calls_re(r"fastant::instant::Instant::elapsed$", cleanup=False)]
+        recv_ok = bool(el2) and all(any(o.path[-2:] == (".raw_span", ".begin_instant") for o in prov.of_operand(c, c.term(b)["args"][0])) for c, b in el2)
+        data_ok = False
+        for v in via_map:
+            t = fn.term(v[2])
+            data_ok = data_ok or has_origin(prov.of_operand(fn, t["args"][0]), kind="param", key=1, path_suffix=(".inner",))
+        ok = bool(via_map) and recv_ok and data_ok and not el
     ctx.check(ok, rule, fn.path, fn.span, "Span::elapsed returns begin_instant.elapsed() under inner = Some and None otherwise", "",
               "receiver ok: %s, Some guarded: %s" % (okr, bool(some) and fn.guarded(somes, some)), extra="elapsed")
 
